@@ -80,6 +80,8 @@ def call_coq(toks):
         return '(CView %s %s %s)' % (z(toks[1]), z(toks[2]), call_coq(toks[3:]))
     if op in TYPED:
         return '(%s %d %s)' % (TYPED[op], SIZES[toks[1]], z(toks[2]))
+    if op == 'dfw':         # DataHeaderFlyweight::new(buf, off): Flyweight::<HeaderDefn>::new (8 bytes) then overlay_struct::<DataHeaderDefn>(0) (28 bytes)
+        return '(FOverlay 28 %s 0)' % z(toks[1])
     if op == 'efw':         # ErrorResponseFlyweight::new(buf, off).error_code(): Flyweight::new over a 20-byte struct, field at 8
         return '(FField 20 %s 8 4)' % z(toks[1])
     if op in PLAIN:
@@ -167,6 +169,7 @@ def grid_calls(cap, W, rng, base=0, wrap=None, dense=True):
             add('cas32', ['cas32', off, cur ^ 1, 9])
         if _aligned(base, off, 4):
             add('efw', ['efw', off])
+            add('dfw', ['dfw', off])
         add('addo', ['addo', off, rng.choice([0, 1, -1, 2**63 - 1, -2**63, rng.randrange(-2**40, 2**40)])])
         add('gsl', ['gsl', off])
     for off in offs:
@@ -238,6 +241,7 @@ def extreme_cases(rng, caps):
             cases.append(_mk('cas32-ext', cap, 8, [_np(['cas32', a, 1, 2])]))
             cases.append(_mk('gaa-ext', cap, 8, [_np(['gaa', a, 1])]))
             cases.append(_mk('efw-ext', cap, 8, [_np(['efw', a])]))
+            cases.append(_mk('dfw-ext', cap, 8, [_np(['dfw', a])]))
             for ty in (2, 4, 8, 80):
                 cases.append(_mk('asref-ext', cap, 8, [_np(['asref', ty, a])]))
     return cases
